@@ -10,6 +10,7 @@ def fmtSym (name : String) : String :=
   match name with
   | "or" => "||" | "and" => "&&" | "xor" => "⊻" | "eq" => "⩵" | "ne" => "≠" | "lt" => "<" | "le" => "≤" | "gt" => ">" | "ge" => "≥"
   | "add" => "+" | "sub" => "-" | "mul" => "*" | "div" => "/" | "mod" => "%" | "pow" => "^"
+  | "matmul" => "**" | "dot" => "·" | "cross" => "⨯" | "solve" => "\\"
   | "join" => "⋈" | "ljoin" => "⟕" | "rjoin" => "⟖" | "fjoin" => "⟗" | "semi" => "⋉" | "anti" => "▷"
   | "union" => "∪" | "inter" => "∩" | "diff" => "∖" | "symdiff" => "Δ" | "subset" => "⊆" | "superset" => "⊇"
   | "psubset" => "⊊" | "psuperset" => "⊋" | "elem" => "∈" | "notelem" => "∉" | _ => "?"
